@@ -92,15 +92,19 @@ pub struct Chunked {
     sched: Sched,
     calls: usize,
     rnd: u64,
-    /// source fault: once this many `read` calls have succeeded every `read` returns `Err(Other)` (seek keeps working)
+    /// source fault: once this many `read` calls have succeeded `read` returns an error (seek keeps working):
+    /// kind b'p' = every later call `Err(Other)`; b't' = that call only `Err(TimedOut)`; b'i' = that call only
+    /// `Err(Interrupted)`; b'j' = `Err(Interrupted)` three times, then success
     fail_after: Option<usize>,
+    fail_kind: u8,
+    fired: u32,
     ok_reads: usize,
 }
 
 impl Chunked {
     fn new(data: Vec<u8>, sched: Sched) -> Chunked {
         let rnd = if let Sched::Rand(s, _) = sched { s } else { 0 };
-        Chunked { data, pos: 0, sched, calls: 0, rnd, fail_after: None, ok_reads: 0 }
+        Chunked { data, pos: 0, sched, calls: 0, rnd, fail_after: None, fail_kind: b'p', fired: 0, ok_reads: 0 }
     }
     fn next_limit(&mut self) -> usize {
         let i = self.calls;
@@ -127,7 +131,17 @@ impl Read for Chunked {
     fn read(&mut self, buf: &mut [u8]) -> std::io::Result<usize> {
         if let Some(k) = self.fail_after {
             if self.ok_reads >= k {
-                return Err(std::io::Error::new(std::io::ErrorKind::Other, "injected read error"));
+                use std::io::ErrorKind::*;
+                let (kind, times) = match self.fail_kind {
+                    b't' => (TimedOut, 1),
+                    b'i' => (Interrupted, 1),
+                    b'j' => (Interrupted, 3),
+                    _ => (Other, u32::MAX),
+                };
+                if self.fired < times {
+                    self.fired = self.fired.saturating_add(1);
+                    return Err(std::io::Error::new(kind, "injected read error"));
+                }
             }
         }
         self.ok_reads += 1;
@@ -237,6 +251,8 @@ struct Sess {
     /// the source is a fault-injecting stream: completeness clauses are not evaluated (the property presupposes a source
     /// that can be read), the flag / slice / order / window clauses are
     fault: bool,
+    /// transient fault (one read fails once): at most ONE transfer may be incomplete, every other transfer is complete
+    fault_once: bool,
     tmp: Option<std::path::PathBuf>,
 }
 
@@ -346,6 +362,9 @@ impl BencEngine {
         let mut cfg = Config::default();
         cfg.interleave_blocks = win as u8;
         cfg.toi_initial_value = Some(1);
+        // ONE transfer slot, as in the model's `Session` (with the default 3 slots another slot starts the next transfer of
+        // the object in the same `Sender::read` when a transfer ends without packet - sched's domain)
+        cfg.priority_queues = std::collections::BTreeMap::from([(0, flute::sender::PriorityQueue::new(1))]);
         let endpoint = UDPEndpoint::new(None, "224.0.0.1".to_string(), 3400);
         // the session's default OTI (used for the FDT) stays the library default; the object carries its own
         let default_oti: Oti = Default::default();
@@ -375,6 +394,8 @@ impl BencEngine {
         };
         let mut tmp = None;
         let mut fault = false;
+        let mut fault_once = false;
+        let mut fkind = b'p';
         let obj2 = obj.clone();
         let md5 = prepos.is_none();
         let mk_file = |this: &mut BencEngine| -> std::path::PathBuf {
@@ -417,16 +438,26 @@ impl BencEngine {
                     s if s.starts_with("chk:") => {
                         let (spec, fail) = match s[4..].split_once('!') {
                             None => (&s[4..], None),
-                            Some((a, k)) => match k.parse::<usize>() {
-                                Ok(k) => (a, Some(k)),
-                                Err(_) => return "bad-op".into(),
-                            },
+                            Some((a, k)) => {
+                                let (num, kind) = match k.as_bytes().last() {
+                                    Some(c @ (b't' | b'i' | b'j')) => (&k[..k.len() - 1], *c),
+                                    _ => (k, b'p'),
+                                };
+                                fkind = kind;
+                                match num.parse::<usize>() {
+                                    Ok(k) => (a, Some(k)),
+                                    Err(_) => return "bad-op".into(),
+                                }
+                            }
                         };
                         match parse_sched(spec) {
                             Some(x) => {
                                 let mut c = Chunked::new(obj2, x);
                                 c.fail_after = fail;
-                                fault = fail.is_some();
+                                c.fail_kind = fkind;
+                                // Interrupted is retried by the sender: not a fault as far as the packets are concerned
+                                fault = fail.is_some() && (fkind == b'p' || fkind == b't');
+                                fault_once = fail.is_some() && fkind == b't';
                                 Box::new(c)
                             }
                             None => return "bad-op".into(),
@@ -517,6 +548,7 @@ impl BencEngine {
             dead: false,
             ticked: false,
             fault,
+            fault_once,
             tmp,
         });
         format!("ok {}", l)
@@ -735,12 +767,15 @@ fn oracle(s: &Sess, o: &mut Oracle) {
             o.fail("b-flag-not-last", &format!("B on packet #{} of {} (sbn {}, esi {}) but further packets follow {}", i, tr.len(), p.sbn, p.esi, ctxs));
         } else if s.car {
             o.fail("b-flag-carousel", &format!("B on packet #{} of a carousel object that was not removed {}", i, ctxs));
-        } else if transfers.len() as u64 != s.maxtc {
+        } else if transfers.len() as u64 != s.maxtc && !s.fault {
+            // (with a source fault a transfer may have no packet at all: it is not visible in the stream)
             o.fail("b-flag-not-final-transfer", &format!("B in transfer {} of {} {}", transfers.len(), s.maxtc, ctxs));
         }
     }
     let ntr = transfers.len();
+    let mut once_used = false;
     for (ti, t) in transfers.iter().enumerate() {
+        let mut once_used_next = once_used;
         // a transfer is `complete` unless the stream was cut in it by a removal (forced stop) or the case stopped reading
         let cut = (ti + 1 == ntr) && (!s.ended || t.iter().any(|(_, p)| p.after_remove && p.b));
         let cut = cut || (ti + 1 == ntr && s.removed && t.last().map(|(_, p)| p.b && p.after_remove).unwrap_or(false));
@@ -820,7 +855,13 @@ fn oracle(s: &Sess, o: &mut Oracle) {
                 break;
             }
         }
-        if !cut && !s.fault {
+        // a permanent source fault: completeness is not evaluated; a transient one: the FIRST incomplete transfer is excused
+        let excused = s.fault && (!s.fault_once || !once_used);
+        let complete_here = (0..part.n).all(|sbn| (0..part.k(sbn)).all(|esi| seen.contains_key(&(sbn as u32, esi as u32))));
+        if s.fault_once && !complete_here && !cut {
+            once_used_next = true;
+        }
+        if !cut && (!excused || complete_here) {
             // every source symbol exactly once
             let mut missing = 0u64;
             let mut first_missing = None;
@@ -863,6 +904,7 @@ fn oracle(s: &Sess, o: &mut Oracle) {
                 }
             }
         }
+        once_used = once_used_next;
     }
     // number of transfers: never more than max_transfer_count without carousel
     // (max_transfer_count = 0 sends one transfer without B: transfer counting is C12's clause, not checked here)
@@ -945,6 +987,13 @@ fn one_case(ctx: &mut Ctx, eng: &mut dyn Engine, id: &str, c: &Cfg, bucket: &str
     let mut out = String::new();
     if r.starts_with("ok") {
         out = ctx.step(eng, "benc readall");
+        if c.src.contains('!') && !c.src.ends_with('i') && !c.src.ends_with('j') {
+            // a transfer cut by a source fault may end a `read` early: keep reading, the later transfers must be whole
+            for _ in 0..c.maxtc + 1 {
+                out.push(' ');
+                out.push_str(&ctx.step(eng, "benc readall"));
+            }
+        }
         let part = Part::new(c.len, c.e, c.b);
         if part.n >= 2 && c.win >= 2 && (c.p > 0 || c.scheme == "nocode") {
             ctx.nontrivial(&c.key());
@@ -1172,12 +1221,30 @@ pub fn run(ctx: &mut Ctx, eng: &mut dyn Engine) {
                         if !thorough && k > 3 && rng.below(3) != 0 {
                             continue;
                         }
-                        fnn += 1;
-                        let c = Cfg { scheme, e, b, p, win, maxtc, allow: false, car: fnn % 5 == 0, cenc: "null", src: format!("chk:f{}!{}", chunk, k), seed: 40 + fnn, len };
-                        one_case(ctx, eng, &format!("fault-{}", fnn), &c, "source-fault");
-                        ctx.nontrivial(&c.key());
+                        // permanent hard error, transient hard error (TimedOut once), Interrupted once / three times - at read index k
+                        for kind in ["", "t", "i", "j"] {
+                            if !thorough && kind != "" && rng.below(2) != 0 {
+                                continue;
+                            }
+                            fnn += 1;
+                            let tc = if kind == "" { maxtc } else { maxtc + 1 };
+                            let c = Cfg { scheme, e, b, p, win, maxtc: tc, allow: false, car: fnn % 5 == 0, cenc: "null", src: format!("chk:f{}!{}{}", chunk, k, kind), seed: 40 + fnn, len };
+                            one_case(ctx, eng, &format!("fault-{}", fnn), &c, if kind == "" { "source-fault" } else { "source-fault-transient" });
+                            ctx.nontrivial(&c.key());
+                        }
                     }
                 }
+            }
+        }
+    }
+
+    for (e, b, len, chunk, maxtc) in [(16u64, 4u64, 165u64, 24u64, 2u64), (100, 10, 5000, 700, 2), (100, 10, 5000, 2300, 3), (8, 3, 100, 5, 2)] {
+        let reads = len / chunk + 3;
+        for k in 0..=(2 * reads) {
+            for kind in ["t", "i", "j"] {
+                fnn += 1;
+                let c = Cfg { scheme: "nocode", e, b, p: 0, win: 1 + fnn % 3, maxtc, allow: false, car: false, cenc: "null", src: format!("chk:f{}!{}{}", chunk, k, kind), seed: 90 + fnn, len };
+                one_case(ctx, eng, &format!("fault-shape-{}", fnn), &c, "source-fault-transient");
             }
         }
     }
@@ -1214,6 +1281,8 @@ pub fn run(ctx: &mut Ctx, eng: &mut dyn Engine) {
             srcs.push(format!("chk:r{}.{}", rng.below(1 << 30), (e * b).max(2)));
             srcs.push(format!("chk:l{}.{}.{}.1", rng.range(1, 9), rng.range(1, 9), rng.range(1, 40)));
             srcs.push(format!("chk:f3@pre{}", k1));
+            srcs.push(format!("chk:f3!{}i", rng.range(0, len / 3 + 2)));
+            srcs.push(format!("chk:f7!{}j", rng.range(0, len / 7 + 2)));
             srcs.push(format!("chk:r{}.{}@post{}", rng.below(1 << 30), 9, k1));
         } else {
             srcs.retain(|x| x != "chk:f7");
